@@ -495,6 +495,8 @@ class Check:
                  "correspondence": self.corr},
                 False,
             )
+        for stale in REPLAYS.glob(f"{self.prop}-{self.tier}-{self.seed}-*.json"):
+            stale.unlink()      # replay files of an earlier run of this very check are not this run's
         for i, v in enumerate(self.violations):
             path = REPLAYS / f"{self.prop}-{self.tier}-{self.seed}-{i}.json"
             rp = dict(v["replay"])
